@@ -12,9 +12,9 @@ import (
 
 func init() {
 	register(&Rule{
-		ID: "C32",
+		ID:      "C32",
 		Explain: "Decides encoding agreement as table agreement, not value round-trip: for every message-type tag the Go struct type passed to encodeMessage/encodeRelayMessage under that tag equals the type decoded in the arm/guard for that tag (NotifyMsg switch, push/pull guard, conflict and key-response guards); the untagged key-request decode site decodes a type that is encoded under exactly one tag; every tag has both sides; the tag codec writes the magic byte the decoder tests, uses the role-only form exactly below protocol 3 and the same msgpack handle type on both sides; the relay forwarder sends exactly the reader's remainder after the header to the header's destination, and the relay encoder lays out tag, header, inner tag, message in that order; a tag set is installed only if its encoding fits memberlist's metadata limit (SetTags and Create). msgpack's own round-trip is the trusted base.",
-		Run: runC32,
+		Run:     runC32,
 		Mutants: []Mutant{
 			{Name: "rename-locals", Equivalent: true, Regexp: true, File: "serf/delegate.go", Func: "func (d *delegate) NotifyMsg(", Old: `\b(header|reader|raw|rebroadcast|rebroadcastQueue)\b`, New: "${1}Renamed"},
 			{Name: "decode-under-wrong-tag", File: "serf/keymanager.go", Func: "func (k *KeyManager) streamKeyResp(", Old: "messageType(r.Payload[0]) != messageKeyResponseType", New: "messageType(r.Payload[0]) != messageConflictResponseType", Expect: "R1"},
